@@ -27,6 +27,9 @@ BUDGET = {
 }
 
 
+LATE_BUDGET = {'quick': 80, 'thorough': 400}
+
+
 def tree_for(rng: Any, prefix: str, cancel: bool, big: bool = False) -> tuple[dict, set[str]]:
     g = scen.TreeGen(rng, prefix, max_tasks=int(rng.integers(4, 30 if big else 14)), cancel=cancel,
                      raises=False, nexts=True, unawaited=True, wide=bool(rng.random() < 0.3))
@@ -46,7 +49,7 @@ def has_cancel(tree: dict) -> bool:
 
 
 def make_scenario(seed: int, idx: int, family: str) -> dict:
-    fam_id = {'intask': 1, 'intask_line': 2, 'client_cancel': 3, 'disconnect': 4, 'base': 5}[family]
+    fam_id = {'intask': 1, 'intask_line': 2, 'client_cancel': 3, 'disconnect': 4, 'base': 5, 'late_fetch': 6}[family]
     rng = core.rng_for(seed, PID, fam_id, idx)
     sc = driver.sched_params(rng)
     feats: set[str] = set()
@@ -91,6 +94,26 @@ def make_scenario(seed: int, idx: int, family: str) -> dict:
             t2, f3 = tree_for(rng, 'c1t', False)
             clients.append({'name': 'c1', 'ops': [['connect'], ['compile', t2], ['quiesce', 'done'], ['close']]})
             feats.add('bystander_other_client')
+    elif family == 'late_fetch':
+        # cancel / disconnect *after completion*: the result reaches the
+        # server before the client asks for it (both clients wait at a
+        # quiescence barrier), the client fetches it late, optionally cancels
+        # the delivered id again, and leaves while another client's
+        # compilation is running
+        nm = int(rng.integers(1, 3))
+        topo = {'kind': 'detached', 'managers': [int(rng.integers(1, 4)) for _ in range(nm)], 'nested': False}
+        done, f1 = tree_for(rng, 'c0d', False)
+        t2, f3 = tree_for(rng, 'c1t', False, big=True)
+        feats |= f1 | f3 | {'late_fetch'}
+        ops = [['connect'], ['submit', 'd', done], ['quiesce', 'd_done'], ['result', 'd']]
+        if rng.random() < 0.5:
+            ops.append(['cancel', 'd'])
+            feats.add('cancel_after_delivery')
+        ops += [['yield', int(rng.choice([0, 2, 6, 15, 40]))], ['close']]
+        clients = [
+            {'name': 'c0', 'ops': ops},
+            {'name': 'c1', 'ops': [['connect'], ['quiesce', 'd_done'], ['compile', t2], ['quiesce', 'done'], ['close']]},
+        ]
     else:  # disconnect with work in flight (detached only: attached = shutdown)
         nm = int(rng.integers(1, 3))
         topo = {'kind': 'detached', 'managers': [int(rng.integers(1, 4)) for _ in range(nm)], 'nested': False}
@@ -142,6 +165,18 @@ def judge(sc: dict, obs: dict) -> tuple[list[dict], str | None]:
                     w.append({'kind': 'bystander:wrong_value', 'got': got, 'want': val})
             elif rec and rec['outcome'] == 'raise' and not own_error(comp['client'], rec):
                 w.append({'kind': 'bystander:error', 'msg': rec.get('msg', '')[-300:], 'site': scen._err_site(rec.get('msg', ''))})
+        if comp['op'] == 'submit:d':
+            rec = outs.get((comp['client'], 'result:d'))
+            val, ex = WL.interpret(comp['tree'])
+            if rec and rec['outcome'] == 'value':
+                got = rec['value'].get('tree_result') if isinstance(rec['value'], dict) else rec['value']
+                if scen.norm(got) != scen.norm(val):
+                    w.append({'kind': 'late_fetch:wrong_value', 'got': got, 'want': val})
+            elif rec and rec['outcome'] == 'raise':
+                w.append({'kind': 'late_fetch:result_raised', 'msg': rec.get('msg', '')[-300:], 'site': scen._err_site(rec.get('msg', ''))})
+            rc = outs.get((comp['client'], 'cancel:d'))
+            if rc and rc['outcome'] == 'raise':
+                w.append({'kind': 'late_fetch:cancel_after_delivery_raised', 'msg': rc.get('msg', '')[-300:], 'site': scen._err_site(rc.get('msg', ''))})
         if comp['op'] == 'submit:v':
             rec = outs.get((comp['client'], 'result:v'))
             if rec and rec['outcome'] == 'value':
@@ -172,6 +207,8 @@ def judge(sc: dict, obs: dict) -> tuple[list[dict], str | None]:
 def nontrivial(sc: dict, obs: dict) -> bool:
     cancels = sum(1 for m in obs.get('msglog', []) if m['ev'] == 'recv' and m['msg'][0] == 'CANCEL')
     bodies = sum(1 for x in obs.get('exec_log', []) if x[2] == 'start')
+    if sc.get('family') == 'late_fetch':
+        return bodies >= 2 and any(c['op'] == 'result:d' and c['outcome'] == 'value' for c in obs.get('clients', []))
     return cancels >= 1 and bodies >= 2
 
 
@@ -243,6 +280,7 @@ def main(tier: str, seed: int, replay: str | None = None) -> int:
     scs += [(make_scenario(seed, i, 'intask_line'), 'intask_line') for i in range(n_line)]
     scs += [(make_scenario(seed, i, 'client_cancel'), 'client_cancel') for i in range(n_cc)]
     scs += [(make_scenario(seed, i, 'disconnect'), 'disconnect') for i in range(n_dc)]
+    scs += [(make_scenario(seed, i, 'late_fetch'), 'late_fetch') for i in range(LATE_BUDGET[tier])]
     bases = [make_scenario(seed, i, 'base') for i in range(n_base)]
     for pts in core.pmap(_points, bases, workers=min(8, len(bases))):
         scs += [(s, 'systematic') for s in pts[:max_pts]]
@@ -279,12 +317,12 @@ def main(tier: str, seed: int, replay: str | None = None) -> int:
             run.violation(x)
     if run.counters.get('procnet_inconclusive', 0) > 0.3 * n_proc:
         run.inconclusive_because('%d of %d real-process cases were inconclusive' % (run.counters['procnet_inconclusive'], n_proc))
-    for c in ('procnet_bystander_results_compared', 'procnet_client_cancels', 'procnet_worker_tables_probed'):
+    for c in ('procnet_bystander_results_compared', 'procnet_client_cancels', 'procnet_worker_tables_probed', 'executions:late_fetch'):
         run.require(c, 1)
     for c in ('deliveries', 'task_bodies_run', 'cancel_messages_delivered', 'cancels_processed_by_all_workers', 'quiescent_snapshots_checked', 'preemptions'):
         run.require(c, 1)
     return run.finish(
-        rule='scenario families: in-task cancel at every kind of point (before start / delayed / awaiting / after partial next() / after completion, await of a cancelled future), client cancel(task_id) after 0-60 scheduler turns with bystanders, client close() or abrupt client death with work in flight on a detached server with a bystander client; random delivery orders, random and systematic line-level pre-emption. distinct = (tree shapes, client ops, topology, delivery-order hash, pre-emption/crash points); non-trivial = >=1 CANCEL delivered and >=2 bodies ran. Real-process family (procnet): real bqskit.runtime processes over real sockets (attached 2-4 workers or detached managers), 6-12 compilations in waves of 2-6 with in-task cancels and un-awaited children, the client cancels ~40% of them at once or after 1-100 ms and fetches the rest (each value compared with the interpreter); then a probing compilation maps a leaf over all workers that reports tasks, delayed tasks and mailboxes not belonging to the probe itself (up to 4 probes 0.5-1.5 s apart: only an entry present in the last probe is called a leak)',
+        rule='scenario families: in-task cancel at every kind of point (before start / delayed / awaiting / after partial next() / after completion, await of a cancelled future), client cancel(task_id) after 0-60 scheduler turns with bystanders, client close() or abrupt client death with work in flight on a detached server with a bystander client; late fetch (result reaches the server before the client asks, then result, optional second cancel of the delivered id, and close while another client compiles); random delivery orders, random and systematic line-level pre-emption. distinct = (tree shapes, client ops, topology, delivery-order hash, pre-emption/crash points); non-trivial = >=1 CANCEL delivered and >=2 bodies ran. Real-process family (procnet): real bqskit.runtime processes over real sockets (attached 2-4 workers or detached managers), 6-12 compilations in waves of 2-6 with in-task cancels and un-awaited children, the client cancels ~40% of them at once or after 1-100 ms and fetches the rest (each value compared with the interpreter); then a probing compilation maps a leaf over all workers that reports tasks, delayed tasks and mailboxes not belonging to the probe itself (up to 4 probes 0.5-1.5 s apart: only an entry present in the last probe is called a leak)',
         assumptions=driver.SIM_ASSUMPTIONS + [
             'K3 excludes the tombstone set of cancelled ids and the id->connection retention while the client stays connected, as the property statement does',
         ],
